@@ -347,21 +347,26 @@ func ruleTWARM(p *Program, r *Reporter) {
 		return
 	}
 	n := 0
-	for g := range p.PrivateRegion(fn) {
+	region := p.PrivateRegion(fn)
+	lp := &listProv{p: p, region: region, memo: map[ssa.Value]int{}}
+	for g := range region {
 		if g.Parent() != nil {
 			continue
 		}
-		// the map returned by Database.List
+		// the map returned by Database.List, as seen in g: the call's result, the result
+		// of a private helper that returns it, or a parameter that receives it
 		var listed []ssa.Value
 		for _, b := range g.Blocks {
 			for _, ins := range b.Instrs {
-				if c, ok := ins.(*ssa.Call); ok && c.Call.IsInvoke() && c.Call.Method.Name() == "List" {
-					if refs := c.Referrers(); refs != nil {
-						for _, rf := range *refs {
-							if ex, ok := rf.(*ssa.Extract); ok && ex.Index == 0 {
-								listed = append(listed, ex)
-							}
+				if rg, ok := ins.(*ssa.Range); ok && lp.derives(rg.X) {
+					dup := false
+					for _, l := range listed {
+						if l == rg.X {
+							dup = true
 						}
+					}
+					if !dup {
+						listed = append(listed, rg.X)
 					}
 				}
 			}
@@ -668,6 +673,19 @@ func ruleGENSKIP(p *Program, r *Reporter) {
 				if call, ok := cond.(*ssa.Call); ok && truth {
 					if sc := call.Call.StaticCallee(); sc != nil && sc.Pkg != nil && sc.Pkg.Pkg.Path() == "bytes" && sc.Name() == "Equal" {
 						why = "the file's content equals the generated source (bytes.Equal)"
+					} else if sc != nil && pkgOf(sc) == pkgOf(g) && len(sc.Blocks) > 0 {
+						// a helper of the package whose verdict is a whole-content comparison of its arguments
+						for _, h := range p.Reach(sc) {
+							for _, hb := range h.Blocks {
+								for _, hi := range hb.Instrs {
+									if hc, ok := hi.(*ssa.Call); ok {
+										if hs := hc.Call.StaticCallee(); hs != nil && hs.Pkg != nil && hs.Pkg.Pkg.Path() == "bytes" && (hs.Name() == "Equal" || hs.Name() == "Compare") {
+											why = "the file's content equals the generated source (" + funcName(sc) + " compares whole contents)"
+										}
+									}
+								}
+							}
+						}
 					}
 				}
 				if bo, ok := cond.(*ssa.BinOp); ok {
@@ -756,13 +774,51 @@ func ruleMAXONE(p *Program, r *Reporter) {
 					continue
 				}
 				n++
+				if !ok2 {
+					// a comparison with another bound is only a disagreement when it chooses
+					// between the element-wise and the atomic merge; a guard of a length check
+					// (`max != unlimited && len > max`) is not
+					chooses := false
+					if refs := bo.Referrers(); refs != nil {
+						for _, rf := range *refs {
+							iff, isIf := rf.(*ssa.If)
+							if !isIf {
+								continue
+							}
+							for _, arm := range iff.Block().Succs {
+								if len(arm.Preds) != 1 {
+									continue
+								}
+								for _, d := range fn.Blocks {
+									if !arm.Dominates(d) {
+										continue
+									}
+									for _, di := range d.Instrs {
+										if dc, ok := di.(*ssa.Call); ok {
+											if ds := dc.Call.StaticCallee(); ds != nil && pkgOf(ds) == "updates" {
+												switch ds.Name() {
+												case "setDifference", "mergeMapDifference", "mergeAtomicDifference", "mergeDifference", "difference", "applyDifference":
+													chooses = true
+												}
+											}
+										}
+									}
+								}
+							}
+						}
+					}
+					if !chooses {
+						r.Ob(id, funcName(fn), "Max() compared with "+what, bo.Pos(), true, false, "this comparison does not choose between the element-wise and the atomic merge")
+						continue
+					}
+				}
 				r.Ob(id, funcName(fn), "Max() compared with 1", bo.Pos(), ok2, true,
 					ifs(ok2, "single-valued sets are split off at max == 1, as in the mapper and the generator", fmt.Sprintf("Max() is compared with %s: set columns with a bounded max other than 1 fall on the wrong side (they are slices for the mapper but are merged as atomic values here), so two changes of one such column in a transaction lose elements in update2/update3 notifications", what)))
 			}
 		}
 	}
-	if n < 2 {
-		r.Anchor(id, fmt.Sprintf("package updates: %d constant comparisons of ColumnType.Max(), expected >= 2", n))
+	if n < 1 {
+		r.Anchor(id, fmt.Sprintf("package updates: %d constant comparisons of ColumnType.Max(), expected >= 1", n))
 	}
 }
 
@@ -939,8 +995,28 @@ func ruleRITER(p *Program, r *Reporter) {
 				continue
 			}
 			sc := c.Call.StaticCallee()
-			if sc == nil || (sc.Name() != "Merge" && sc.Name() != "ApplyCacheUpdate") {
+			if sc == nil {
 				continue
+			}
+			if sc.Name() != "Merge" && sc.Name() != "ApplyCacheUpdate" {
+				// a helper of the package that merges/applies the update it is handed
+				isHelper := false
+				if pkgOf(sc) == pkgOf(fn) && len(sc.Blocks) > 0 {
+					for _, hh := range p.Reach(sc) {
+						for _, hb := range hh.Blocks {
+							for _, hi := range hb.Instrs {
+								if hc, ok := hi.(*ssa.Call); ok {
+									if hs := hc.Call.StaticCallee(); hs != nil && (hs.Name() == "Merge" || hs.Name() == "ApplyCacheUpdate") {
+										isHelper = true
+									}
+								}
+							}
+						}
+					}
+				}
+				if !isHelper {
+					continue
+				}
 			}
 			// the ModelUpdates argument: a load through a pointer produced by the operation
 			for _, a := range c.Call.Args[1:] {
@@ -961,8 +1037,8 @@ func ruleRITER(p *Program, r *Reporter) {
 			}
 		}
 	}
-	if n < 2 {
-		r.Anchor(id, fmt.Sprintf("Transact: %d Merge/ApplyCacheUpdate calls with an update argument inside the operation loop, expected >= 2", n))
+	if n < 1 {
+		r.Anchor(id, fmt.Sprintf("Transact: %d Merge/ApplyCacheUpdate calls with an update argument inside the operation loop, expected >= 1", n))
 	}
 }
 
@@ -1070,4 +1146,96 @@ func ruleA2INPLACE(p *Program, r *Reporter) {
 		}
 	}
 	r.Ob(id, "package cache", "cached rows are replaced, not rewritten", token.NoPos, true, true, fmt.Sprintf("%d CloneInto calls in package cache examined", n))
+}
+
+// ---------------------------------------------------------------------------
+// interprocedural provenance inside a function's private region: is v (a value
+// of function g) the row map that Database.List returned — directly, as the
+// result of a private helper that returns it, or as a parameter that receives
+// it at every call site?
+
+type listProv struct {
+	p      *Program
+	region map[*ssa.Function]bool
+	memo   map[ssa.Value]int // 1 yes, 2 no, 3 in progress
+}
+
+func (lp *listProv) isListCall(c *ssa.Call) bool {
+	return c.Call.IsInvoke() && c.Call.Method.Name() == "List" && isNamed(c.Call.Value.Type(), repoMod+"/database", "Database")
+}
+
+func (lp *listProv) derives(v ssa.Value) bool {
+	switch lp.memo[v] {
+	case 1:
+		return true
+	case 2, 3:
+		return false
+	}
+	lp.memo[v] = 3
+	res := false
+	switch x := v.(type) {
+	case *ssa.Extract:
+		if x.Index == 0 {
+			if c, ok := x.Tuple.(*ssa.Call); ok {
+				if lp.isListCall(c) {
+					res = true
+				} else if h := c.Call.StaticCallee(); h != nil && lp.region[h] {
+					res = lp.returnsList(h, 0)
+				}
+			}
+		}
+	case *ssa.Call:
+		if h := x.Call.StaticCallee(); h != nil && lp.region[h] {
+			res = lp.returnsList(h, 0)
+		}
+	case *ssa.Phi:
+		for _, e := range x.Edges {
+			if lp.derives(e) {
+				res = true
+			}
+		}
+	case *ssa.Parameter:
+		g := x.Parent()
+		idx := -1
+		for i, q := range g.Params {
+			if q == x {
+				idx = i
+			}
+		}
+		sites := getCallIndex(lp.p).sites[g]
+		if idx >= 0 && len(sites) > 0 && lp.region[g] {
+			res = true
+			for _, s := range sites {
+				c, ok := s.instr.(ssa.CallInstruction)
+				if !ok || idx >= len(c.Common().Args) || !lp.derives(c.Common().Args[idx]) {
+					res = false
+				}
+			}
+		}
+	}
+	if res {
+		lp.memo[v] = 1
+	} else {
+		lp.memo[v] = 2
+	}
+	return res
+}
+
+func (lp *listProv) returnsList(h *ssa.Function, i int) bool {
+	any := false
+	for _, b := range h.Blocks {
+		ret, ok := b.Instrs[len(b.Instrs)-1].(*ssa.Return)
+		if !ok || isRecoverBlock(b) || i >= len(ret.Results) {
+			continue
+		}
+		v := retValue(ret, i)
+		if k, isC := v.(*ssa.Const); isC && k.IsNil() {
+			continue
+		}
+		if !lp.derives(v) {
+			return false
+		}
+		any = true
+	}
+	return any
 }
